@@ -325,6 +325,7 @@ func c09(c *core.Check) {
 	c09Accumulators(c)
 	c09Replaced(c)
 	c09Conserve(c)
+	c09CSSWhitespace(c)
 }
 
 // c09Spans: a table cell spans at least one column (HTML 5: colspan is clamped to >= 1), while rowspan may be 0.
